@@ -35,6 +35,11 @@ def decode_value(v):
                 return b
             if cls is bytearray:
                 return bytearray(b)
+            if v.get('attrs'):
+                o = bytes.__new__(cls, b)
+                for an, av in v['attrs'].items():
+                    setattr(o, an, decode_value(av))
+                return o
             try:
                 return cls(b)
             except Exception:
@@ -331,7 +336,10 @@ def rand_value(rng, sh, depth=0):
         else:
             b = bytes(rng.getrandbits(8) for _ in range(n))
         cls = kw.get('cls', bytes)
-        return {'__bytes__': list(b), 'cls': cls.__module__ + ':' + cls.__qualname__}
+        d = {'__bytes__': list(b), 'cls': cls.__module__ + ':' + cls.__qualname__}
+        if kw.get('attrs'):
+            d['attrs'] = {an: rand_value(rng, ash, depth + 1) for an, ash in kw['attrs'].items()}
+        return d
     if k == 'str':
         n = rng.randint(0, 12)
         alpha = kw.get('alphabet') or ''.join(chr(c) for c in range(32, 127))
